@@ -16,11 +16,24 @@ PARSED_FILES = [
     b"# lead\nk1=v1\n\n[S1]\n# c1\n# c2\na=TRUE # t\nb=multi\n  line\n[S2]\nz\n",
     b"x=0x1F\n[A]\ny=-12\n[A]\nx=077\n",
     b"",
+    b"[A]\nx=1\n[B]\ny=2\n",                 # no group-less key: the section list does not start with the group-less one
+    b"# only a comment\n[S1]\nk=v\n[A]\n",     # ... and a section without keys at the end
 ]
 
 
 def start(s, rng, slot=0):
-    c = rng.randrange(4)
+    c = rng.randrange(5)
+    if c == 4:
+        # the merge of two parsed files
+        for i, sl in enumerate((slot + 20, slot + 21)):
+            path = b"/m%d_%d.conf" % (slot, i)
+            s.file(path, rng.choice(PARSED_FILES))
+            s.add("RF", sl, h(path), h(b"="), h(b"#"))
+        s.add("M", slot, slot + 20, slot + 21)
+        s.add("FREE", slot + 20)
+        s.add("FREE", slot + 21)
+        s.add("RAW", slot)
+        return c
     if c == 0:
         s.add("NEW", slot, "key", h(rng.choice([b"=", b":", b" "])), h(rng.choice([b"#", b";"])))
     elif c == 1:
@@ -31,6 +44,7 @@ def start(s, rng, slot=0):
         path = b"/p%d.conf" % slot
         s.file(path, rng.choice(PARSED_FILES))
         s.add("RF", slot, h(path), h(b"="), h(b"#"))
+        s.add("RAW", slot)
     return c
 
 
